@@ -83,6 +83,10 @@ def truth_and_candidate(rng, grid):
             dpos = pos + np.array([0, 0, rng.uniform(-1.5, 1.5)])
     truth = D.DiffuseDroplet(pos, R, w)
     dR = R * rng.uniform(0.8, 1.2)
+    if g == "CartesianGrid" and rng.random() < 0.12:
+        # a candidate whose sphere covers no cell centre (sub-resolution, sitting on a cell corner): nothing to fit
+        dR = 0.04 * min(grid.discretization)
+        dpos = np.array([b[0] + grid.discretization[a] * rng.randrange(1, grid.shape[a]) for a, b in enumerate(grid.axes_bounds)])
     if cls == "SphericalDroplet":
         cand = D.SphericalDroplet(dpos, dR)
     elif cls == "DiffuseDroplet":
@@ -212,6 +216,7 @@ def run_cases(ck: Check, n: int):
                 ck.fail(f"image rendered from the candidate itself, but the candidate moved: {b} -> {a}", {**sig, "check": "refine_fixed_point"}, case)
         # ---------------- correspondence with the model
         if "x0" not in rec:
+            ck.count("nothing_to_fit")
             continue
         # the model receives the candidate AS GIVEN (width set or not) and does promotion, packing, scattering and wrapping itself
         modes = len(cand0.amplitudes) if hasattr(cand0, "amplitudes") else 0
